@@ -25,7 +25,8 @@ From CL Require Import Base.Sx Base.Res Base.Str Model.AddRemove Model.Channels
                        Proofs.ReparsePartial
                        Model.Entry Model.Parse Model.ParseFormats Proofs.C02Blocks
                        Proofs.MergeShape Proofs.PropsShape Proofs.MergeReparse15 Proofs.SerializeReparse16
-                       Proofs.PropsView Proofs.PropsWrap.
+                       Proofs.PropsView Proofs.PropsWrap Proofs.SerializeIdem.
+From CL Require Proofs.C02BlocksDtd Proofs.DtdShape Proofs.DtdReparse.
 From Coq Require Import Lia.
 Import ListNotations.
 Local Open Scope nat_scope.
@@ -226,9 +227,10 @@ Qed.
    value, exactly the entities of the output entry list [out] (C16_entities / C16_values /
    C16_nothing_else speak about it): the reference keys that have a value, in reference
    order; the standalone comments are the comment entries of [out].
-   _partial w.r.t. the property: idempotence at TEXT level (serialize(reference, parse(out), {})
-   = out, byte for byte) is not proved; C16_idempotent gives it at entity level, and together
-   with this theorem the second output re-parses to the same entities. *)
+   Idempotence at TEXT level (serialize(reference, parse(out), {}) = out, byte for byte) is
+   proved for the case without old localization and with a value for every reference entity
+   (C16_idempotent_text_partial); in general C16_idempotent gives it at entity level, and
+   together with this theorem the second output re-parses to the same entities. *)
 Theorem C16_reparse_properties : forall m rbs obs wrap nd name txt,
   version_ok m rbs -> version_ok m obs -> NoDup (map fst nd) -> props_wrap wrap ->
   (forall k raw, In (k, Some raw) nd -> legal_rawb raw = true) ->
@@ -313,4 +315,114 @@ Proof.
   exists (s [102;46;112;114;111;112;101;114;116;105;101;115]). eexists. eexists.
   split; [vm_compute; reflexivity|]. split; [vm_compute; reflexivity|].
   split; [vm_compute; reflexivity|]. vm_compute. discriminate.
+Qed.
+
+(* idempotence at TEXT level, for the case "no old localization, every reference entity gets a
+   value" (a complete translation serialized into a new file): the bytes are the text of a
+   legal block list bs2 (so the parser yields [centries_of bs2] for them,
+   C15_parse_view_properties), and serializing that file again — its entries as fresh objects,
+   no new data — returns the same bytes.
+   _partial: with an old localization, or with reference entities left without a value
+   (their placeholders are pruned and the surrounding whitespace folded), text-level
+   idempotence is not proved (entity level: C16_idempotent; the harness compares entities). *)
+Theorem C16_idempotent_text_partial : forall m rbs wrap nd name txt,
+  version_ok m rbs -> NoDup (map fst nd) -> props_wrap wrap ->
+  (forall k raw, In (k, Some raw) nd -> legal_rawb raw = true) ->
+  (forall s0, In s0 (refkeys (number 0 (centries_of rbs))) ->
+              exists raw, od_get str_eqb s0 nd = Some (Some raw)) ->
+  serialize wrap name (number 0 (centries_of rbs)) [] nd = Ok txt ->
+  exists bs2, Forall legal_block bs2 /\ adjacent_ok bs2 /\ file_text bs2 = txt /\
+    forall c, length (number 0 (centries_of rbs)) <= c ->
+      serialize wrap name (number 0 (centries_of rbs)) (number c (centries_of bs2)) [] = Ok txt.
+Proof.
+  intros m rbs wrap nd name txt H1 H2 H3 H4 H5.
+  exact (serialize_idempotent_text m rbs H1 wrap nd H2 H3 H4 H5 name txt).
+Qed.
+
+(* reference  a = A / # note / <blank> / b = B , new_data {a: "x", b: "y"}: the bytes
+   a = x / # note / <blank> / b = y  and, serialized again from their own parse, the same *)
+Definition it_nd : new_data_t := [(A [97], Some (A [120])); (A [98], Some (A [121]))].
+Example C16_example_idempotent_text :
+  let R := number 0 (centries_of rp_ref) in
+  let name := s [102;46;112;114;111;112;101;114;116;105;101;115] in
+  exists txt bs2,
+    serialize wrap_props name R [] it_nd = Ok txt /\ file_text bs2 = txt /\
+    txt = A [97;32;61;32;120;10; 35;32;110;111;116;101;10;10; 98;32;61;32;121;10] /\
+    serialize wrap_props name R (number 100 (centries_of bs2)) [] = Ok txt.
+Proof.
+  eexists. exists [pe [97] [120]; BComment [(35%N, A [32; 110; 111; 116; 101])]; BBlank (A [10]); pe [98] [121]].
+  split; [vm_compute; reflexivity|]. split; [vm_compute; reflexivity|]. split; [reflexivity|].
+  vm_compute. reflexivity.
+Qed.
+
+(* ---- the re-parse clause for DTD, from the block theorem of C02 (blocks_dtd) ---------------------
+   Reference and old localization: legal DTD block lists without parameter-entity blocks under
+   [DtdReparse.dversion_ok m] (see Properties/C15.v).  [dtd_wrap wrap]: Entity.wrap puts the
+   raw value between the quotes of the reference declaration (satisfied, together with
+   wrap_ok, by the concrete [wrap_dtd]: C16_wrap_dtd_contract).  New values contain no quote
+   character ([legal_dtd_raw]; the serializer escapes nothing).  Then the bytes re-parse
+   (walk_dtd) without junk; the entities are, with name and value, the entities of the output
+   entry list: the reference keys with a value in reference order; the standalone comments are
+   its comment entries.
+   _partial: [wrap_dtd] is not proved equal to the model's apply_wrap over the parse's spans
+   (for .properties that link is C16_wrap_props_is_model_wrap); the WRAP suite compares
+   apply_wrap with the implementation. *)
+Theorem C16_reparse_dtd_partial : forall m rbs obs wrap nd name txt,
+  DtdReparse.dversion_ok m rbs -> DtdReparse.dversion_ok m obs -> NoDup (map fst nd) ->
+  wrap_ok wrap -> DtdReparse.dtd_wrap wrap ->
+  (forall k raw, In (k, Some raw) nd -> DtdReparse.legal_dtd_raw raw = true) ->
+  let R := number 0 (DtdShape.dcentries_of rbs) in
+  let L := number (length (DtdShape.dcentries_of rbs)) (DtdShape.dcentries_of obs) in
+  serialize wrap name R L nd = Ok txt ->
+  exists out es,
+    serialize_entries wrap R L nd = Ok out /\ txt = concat (map c_text out) /\
+    walk_dtd txt = Ok es /\
+    map (fun e => let r := entity_record txt e in (fst (fst r), snd (fst r)))
+        (filter (is_kind KEntity) es) = krecs out /\
+    map fst (krecs out) = filter (has_value L nd) (refkeys R) /\
+    map (fun e => span_text txt (e_span e)) (filter (is_kind KComment) es) = ccoms out /\
+    filter (is_kind KJunk) es = [].
+Proof. exact DtdReparse.serialize_reparse_dtd. Qed.
+
+Theorem C16_wrap_dtd_contract : wrap_ok DtdReparse.wrap_dtd /\ DtdReparse.dtd_wrap DtdReparse.wrap_dtd.
+Proof. exact DtdReparse.wrap_dtd_contract. Qed.
+
+(* reference  <!ENTITY a "A">\n<!--c-->\n\n<!ENTITY b "B">\n   old  <!ENTITY a "la">\n   new {b: "nb"} *)
+Definition de (k v : list nat) : C02BlocksDtd.block :=
+  C02BlocksDtd.BEntity None (A [32]) (A k) (A [32]) 34%N (A v) [].
+Definition dnl : C02BlocksDtd.block := C02BlocksDtd.BBlank (A [10]).
+Definition d_ref : list C02BlocksDtd.block :=
+  [de [97] [65]; dnl; C02BlocksDtd.BComment (A [99]); C02BlocksDtd.BBlank (A [10; 10]); de [98] [66]; dnl].
+Definition d_old : list C02BlocksDtd.block := [de [97] [108; 97]; dnl].
+
+Ltac dwsok_one :=
+  unfold DtdReparse.dwsok;
+  first [ intros Hw; vm_compute in Hw; discriminate
+        | intros _ Hl; first [vm_compute; lia | exfalso; vm_compute in Hl; lia] ].
+Ltac dversion_ok_tac :=
+  split; [repeat constructor|]; split; [repeat constructor|]; split; [repeat constructor|];
+  split; [split; nodup_tac|]; split; [vm_compute; intuition (try discriminate; try lia)|];
+  unfold DtdShape.dcentries_of; cbn [DtdShape.dcents DtdShape.dflush app];
+  repeat (apply Forall_cons; [dwsok_one|]); apply Forall_nil.
+
+Example C16_example_dtd_hyps :
+  DtdReparse.dversion_ok 2 d_ref /\ DtdReparse.dversion_ok 2 d_old /\
+  DtdReparse.legal_dtd_raw (A [110; 98]) = true.
+Proof. split; [dversion_ok_tac|]. split; [dversion_ok_tac|]. vm_compute. reflexivity. Qed.
+
+(* the bytes  <!ENTITY a "la">\n<!--c-->\n\n<!ENTITY b "nb">\n  and their parse *)
+Example C16_example_reparse_dtd :
+  exists txt es,
+    serialize DtdReparse.wrap_dtd (s [102;46;100;116;100])
+              (number 0 (DtdShape.dcentries_of d_ref))
+              (number (length (DtdShape.dcentries_of d_ref)) (DtdShape.dcentries_of d_old))
+              [(A [98], Some (A [110; 98]))] = Ok txt /\
+    walk_dtd txt = Ok es /\
+    map (fun e => let r := entity_record txt e in (fst (fst r), snd (fst r)))
+        (filter (is_kind KEntity) es) = [(A [97], A [108; 97]); (A [98], A [110; 98])] /\
+    map (fun e => span_text txt (e_span e)) (filter (is_kind KComment) es) = [A [60;33;45;45;99;45;45;62]] /\
+    filter (is_kind KJunk) es = [].
+Proof.
+  eexists. eexists. split; [vm_compute; reflexivity|]. split; [vm_compute; reflexivity|].
+  split; [vm_compute; reflexivity|]. split; vm_compute; reflexivity.
 Qed.
